@@ -33,7 +33,7 @@ type Pred struct {
 	Acc      bool           `json:"acc"`
 	Later    bool           `json:"later"`
 	Viol     []string       `json:"viol"`
-	Bal      bool           `json:"bal"`
+	Bal      int            `json:"bal"` // 0: index off; k: on with balLimits[k-1]
 	Kf       string         `json:"kf"`       // the model flags this transition as an instance of a known finding
 	PathOnly bool           `json:"pathonly"` // a step on the path to the tested transition: only the verdict is known
 }
@@ -75,19 +75,25 @@ type failure struct {
 }
 
 const minBal = 100000
-const lowMinBal = 1000
+// balLimits mirrors Ledger!BalLimit: the values AllBalances.MinValue takes when the model re-enables the index.
+var balLimits = []uint64{minBal, 0}
 
-// curMinBal is the AllBalances.MinValue in force: every re-enabling of the index switches between the two limits
-// (the client's UI changes CFG.AllBalances.MinValue and calls LoadBalancesFromUtxo, which applies it).
+// curMinBal is the AllBalances.MinValue in force (the client's UI changes CFG.AllBalances.MinValue and calls
+// LoadBalancesFromUtxo, which applies it).
 var curMinBal uint64 = minBal
 
-func toggleMinBal() {
-	if curMinBal == minBal {
-		curMinBal = lowMinBal
-	} else {
-		curMinBal = minBal
-	}
+func setMinBal(k int) {
+	curMinBal = balLimits[k-1]
 	common.CFG.AllBalances.MinValue = curMinBal
+}
+
+// toggleMinBal is used by the random recorder: the index comes back with the other limit.
+func toggleMinBal() {
+	if curMinBal == balLimits[0] {
+		setMinBal(2)
+	} else {
+		setMinBal(1)
+	}
 }
 
 func checkState(n *conc.Node, p *Pred, bal bool) *failure {
@@ -121,7 +127,7 @@ func checkState(n *conc.Node, p *Pred, bal bool) *failure {
 	for e := range want {
 		return mkfail("utxo", fmt.Sprintf("UTXO set lacks output %d:%d (height %d) which the model's replay of the chain holds", e.Tx, e.Vout, e.H))
 	}
-	if bal && p.Bal {
+	if bal && p.Bal != 0 {
 		if f := checkBalances(n, ents); f != nil {
 			return f
 		}
@@ -271,7 +277,7 @@ func replayOne(w *conc.World, dir string, ln *Line, bal bool) (step int, f *fail
 			n.Ch.Idle()
 		case "BalEnable":
 			if bal {
-				toggleMinBal() // the index comes back with the other dust limit
+				setMinBal(st.B) // the limit the model chose for the rebuilt index
 				wallet.LoadBalancesFromUtxo()
 			}
 		case "BalDisable":
